@@ -109,6 +109,33 @@ Theorem C08_conflict_always_raises : forall ft ops c b,
 Proof. exact reachable_conflict_raises. Qed.
 Print Assumptions C08_conflict_always_raises.
 
+(* prov:entity as well, outside memberships: econflict q1 q2 is a disagreement under ANY formal attribute; in a group
+   none of whose records names prov:collection and all of whose records are strictly single-valued (generations,
+   usages, derivations, ... — every relation that names an entity), such a disagreement makes unified() raise too *)
+Theorem C08_conflict_always_raises_any_attribute : forall ft ops c b,
+  let w := wrun ft ops in
+  get_cont w c = Some b -> group_econflict (brecs b) ->
+  unified_records (wft w) b = Raise EProv \/ unified_records (wft w) b = OutOfDomain.
+Proof. exact reachable_econflict_raises. Qed.
+Print Assumptions C08_conflict_always_raises_any_attribute.
+
+Definition ex_gen_conflict : list prec :=
+  let exq l := mkQn (mkNs "ex" "http://e/") l in
+  [mkRec "Generation" (Some (exq "g")) [(prov_qn "entity", [VQn (exq "e1")])];
+   mkRec "Generation" (Some (exq "g")) [(prov_qn "entity", [VQn (exq "e2")])]].
+Example C08_generation_entity_conflict_is_conflict : group_econflict ex_gen_conflict.
+Proof.
+  exists (nth 0 ex_gen_conflict (mkRec "" None [])), (nth 0 ex_gen_conflict (mkRec "" None [])),
+         (nth 1 ex_gen_conflict (mkRec "" None [])).
+  do 5 (split; [vm_compute; auto|]).
+  split.
+  - intros x Hx _. assert (T : forall l, typed (prov_qn "entity") (VQn (mkQn (mkNs "ex" "http://e/") l))).
+    { intros l. split; [intros _; exact Logic.I | vm_compute; discriminate]. }
+    destruct Hx as [<-|[<-|[]]]; (split; [vm_compute; reflexivity | apply Normal_single_pair; apply T]).
+  - exists (prov_qn "entity"), (VQn (mkQn (mkNs "ex" "http://e/") "e1")), (VQn (mkQn (mkNs "ex" "http://e/") "e2")).
+    repeat (split; [vm_compute; auto|]). vm_compute. reflexivity.
+Qed.
+
 (* the same for ProvDocument.unified() on any document of any reachable world: it returns only when neither the
    document's own records nor the records of any of its bundles hold a strict conflict *)
 Theorem C08_document_returns_no_conflict : forall ft ops d dd nd,
